@@ -45,6 +45,9 @@ const RESET_BOUND: u64 = 500_009;
 /// bound drawn by the bound expression of the body-less loop planted as first statement
 const EMPTY_BOUND: u64 = 700_001;
 
+/// bound drawn by the condition of the planted `while`
+const WHILE_BOUND: u64 = 800_003;
+
 struct Plan {
     /// row ids of the two planted rows `(random(RESET_BOUND))` / resetRandom / `(random(RESET_BOUND))`
     reset_pair: Option<(usize, usize)>,
@@ -55,12 +58,14 @@ struct Plan {
     virtual_probe: bool,
     /// the program starts with a body-less loop whose bound draws with EMPTY_BOUND
     empty_loop: bool,
+    /// the program starts with a `while` whose condition draws with WHILE_BOUND, three times
+    while_probe: bool,
 }
 
 /// Add the probe inputs RP0 (64 bit) and RB0, RB1 (1 bit each) in front of the header; rows
 /// that carry a random probe lose their X / C entries, so that one evaluation is one item.
 fn plant(b: &mut Built, ch: &mut Ch) -> Plan {
-    let mut plan = Plan { reset_pair: None, value_probe: vec![], bits_probe: vec![], virtual_probe: false, empty_loop: false };
+    let mut plan = Plan { reset_pair: None, value_probe: vec![], bits_probe: vec![], virtual_probe: false, empty_loop: false, while_probe: false };
     for (k, (n, bits)) in [("RP0", 64usize), ("RB0", 1), ("RB1", 1)].iter().enumerate() {
         b.sigs.insert(k, Sig { name: n.to_string(), bits: *bits, kind: Kind::In(InVal::Val(0)) });
         b.prog.header.insert(k, n.to_string());
@@ -113,6 +118,20 @@ fn plant(b: &mut Built, ch: &mut Ch) -> Plan {
         b.prog.stmts.insert(0, Stmt::Loop("ez".into(), bound, vec![]));
         plan.empty_loop = true;
     }
+    // In a quarter of the cases: `let wq = 2;` / `while((wq + (random(WHILE_BOUND) & 0)))` /
+    // `let wq = (wq - 1);` / `end while` as first statements. The condition is evaluated once
+    // before every pass and once more when it ends the loop: 2, 1, 0 - exactly three draws.
+    if ch.chance(1, 4) {
+        let cond = Expr::Group(Box::new(Expr::bin(
+            BinOp::Add,
+            Expr::var("wq"),
+            Expr::Group(Box::new(Expr::bin(BinOp::And, Expr::Random(Box::new(Expr::lit(WHILE_BOUND))), Expr::lit(0)))),
+        )));
+        let step = Stmt::Let("wq".into(), Expr::Group(Box::new(Expr::bin(BinOp::Sub, Expr::var("wq"), Expr::lit(1)))));
+        b.prog.stmts.insert(0, Stmt::While(cond, vec![step]));
+        b.prog.stmts.insert(0, Stmt::Let("wq".into(), Expr::lit(2)));
+        plan.while_probe = true;
+    }
     // In a third of the cases the program starts with: a row showing random(RESET_BOUND),
     // `resetRandom;`, a second such row. Both are executed unconditionally and the first draw
     // of the run is the first row's, so the second row must show the same value.
@@ -144,7 +163,7 @@ impl Property for C17 {
         "C17"
     }
     fn rule(&self) -> &'static str {
-        "profile `random`: flow programs with random(e) in row entries, let, bounds, ite conditions and branches, nested in its own argument, in a virtual signal; bounds >= 2 by construction (2, small, (e&7)+2, 2^k up to 2^62); resetRandom at any statement position; seeds {0, 1, u64::MAX, random} forced through the seed hook; planted probes: `(random(B_r))` in a 64-bit input and `bits(2, random(B_r+1))` in two 1-bit inputs with a bound unique to the source row r (such rows have no X/C, so one evaluation is one item), `declare VR = random(999983)`, a body-less `loop(ez, (random(700001) & 1))` as first statement (its bound is evaluated once on entry: exactly one draw with that bound), and random(7919) in unselected branches of constant-condition ite. Oracle (self-consistent, on the crate's own event log): every random evaluation is exactly one generator draw (GenDraw, Draw pairs), 0 <= value < bound; after every Reset the values repeat those drawn from the start of the run over the longest common prefix of the bound sequences; the same seed gives the same log; no draw with bound 7919 (lazy ite); for each probed row the number of draws with its bound equals the number of its items, and each item shows exactly the drawn value (resp. its two low bits): one draw per evaluation, used as if it were a literal; VR is drawn once per checked row and shows the drawn value; and a straight-line control program that performs the same sequence of random(bound) / resetRandom with the same seed draws exactly the same values (the draws are those of the run's generator, in order). In a third of the cases two or three iterators over the same test are alive at once and stepped alternately by a generated schedule (same seed, same script): each yields exactly the items of the run on its own (every run has its own generator). Non-trivial: >= 2 draws and (a reset followed by a draw, or a checked probe, or a lazy sentinel present); distinct by source + signals + driver + seed."
+        "profile `random`: flow programs with random(e) in row entries, let, bounds, ite conditions and branches, nested in its own argument, in a virtual signal; bounds >= 2 by construction (2, small, (e&7)+2, 2^k up to 2^62); resetRandom at any statement position; seeds {0, 1, u64::MAX, random} forced through the seed hook; planted probes: `(random(B_r))` in a 64-bit input and `bits(2, random(B_r+1))` in two 1-bit inputs with a bound unique to the source row r (such rows have no X/C, so one evaluation is one item), `declare VR = random(999983)`, a body-less `loop(ez, (random(700001) & 1))` as first statement (its bound is evaluated once on entry: exactly one draw with that bound), a `while` counting a variable down from 2 whose condition draws (evaluated for 2, 1, 0: exactly three draws), and random(7919) in unselected branches of constant-condition ite. Oracle (self-consistent, on the crate's own event log): every random evaluation is exactly one generator draw (GenDraw, Draw pairs), 0 <= value < bound; after every Reset the values repeat those drawn from the start of the run over the longest common prefix of the bound sequences; the same seed gives the same log; no draw with bound 7919 (lazy ite); for each probed row the number of draws with its bound equals the number of its items, and each item shows exactly the drawn value (resp. its two low bits): one draw per evaluation, used as if it were a literal; VR is drawn once per checked row and shows the drawn value; and a straight-line control program that performs the same sequence of random(bound) / resetRandom with the same seed draws exactly the same values (the draws are those of the run's generator, in order). In a third of the cases two or three iterators over the same test are alive at once and stepped alternately by a generated schedule (same seed, same script): each yields exactly the items of the run on its own (every run has its own generator). Non-trivial: >= 2 draws and (a reset followed by a draw, or a checked probe, or a lazy sentinel present); distinct by source + signals + driver + seed."
     }
     fn cases(&self, tier: Tier) -> u64 {
         match tier {
@@ -153,7 +172,7 @@ impl Property for C17 {
         }
     }
     fn required_classes(&self) -> Vec<&'static str> {
-        vec!["draws>=2", "reset-then-draw", "bound=2", "bound>=2^32", "virtual-probe-checked", "seed=0", "seed=max", "replayed-prefix>=2", "value-probe-checked", "bits-probe-checked", "lazy-sentinel-planted", "probe-in-loop", "control-program-compared", "planted-reset-checked", "empty-loop-bound-draw-checked", "interleaved-iterators-compared"]
+        vec!["draws>=2", "reset-then-draw", "bound=2", "bound>=2^32", "virtual-probe-checked", "seed=0", "seed=max", "replayed-prefix>=2", "value-probe-checked", "bits-probe-checked", "lazy-sentinel-planted", "probe-in-loop", "control-program-compared", "planted-reset-checked", "empty-loop-bound-draw-checked", "while-condition-draws-checked", "interleaved-iterators-compared"]
     }
     fn run(&self, s: &Streams) -> CaseOut {
         let mut out = CaseOut::new();
@@ -334,6 +353,17 @@ impl Property for C17 {
                 out.fail(
                     "c17:empty-loop-bound-draws",
                     format!("the program starts with `loop(ez, (random({EMPTY_BOUND}) & 1))` / `end loop`: its bound is evaluated once on entry, so exactly one draw with that bound is due; the run's log has {n}"),
+                );
+                return out;
+            }
+        }
+        if plan.while_probe && (real.ended || !real.items.is_empty()) {
+            let n = all.iter().filter(|(b, _)| *b == WHILE_BOUND as i64).count();
+            out.class("while-condition-draws-checked");
+            if n != 3 {
+                out.fail(
+                    "c17:while-condition-draws",
+                    format!("the program starts with `let wq = 2;` and a while loop over `(wq + (random({WHILE_BOUND}) & 0))` that counts wq down: the condition is evaluated for 2, 1 and 0, so exactly three draws with that bound are due; the run's log has {n}"),
                 );
                 return out;
             }
